@@ -1,25 +1,28 @@
-import MuduoVerif.Model.Rpc
+import MuduoVerif.Model.RpcLock
 import Driver.Util
 /-! `drv_rpc`: the RpcChannel model behind the line protocol of harness/rpc_drv.cc.
 
 An operation of the protocol is a fixed sequence of the model's atomic actions:
 `call` = callBegin · callInsert · callSend on the loop thread; `callmt` = the fetches in the order the
 environment line `< order` reports, all inserts, one loop iteration, the queued sends; `iter` = for
-every channel, every message the peer has written: `recv` · `finish`. -/
+every channel, every message the peer has written: `recv` · [the closure of the completed call calls back into the
+channel, if the call was made with a chain depth: chainBegin · chainInsert · chainSend] · `finish`.  The channel is the
+machine with the mutex (`Model/RpcLock.lean`); its outcome `deadlocked` is the line `hang`, and the run ends there. -/
 namespace Driver.RpcDrv
 open MuduoVerif.Rpc MuduoVerif.Gen.Rpc Driver
 
 structure ChanSt where
   server : Bool
-  m : Chan
+  m : LChan
   inbox : List Msg := []
   tags : List (Nat × Nat) := []        -- model call number ↦ tag printed by the harness
   nextTag : Nat := 0
+  depth : List (Nat × Nat) := []        -- model call number ↦ chain depth of its closure
   reqTable : List (Nat × Nat) := []     -- request payload ↦ request number
   nReq : Nat := 0
   destroyed : Bool := false
 
-instance : Inhabited ChanSt := ⟨{ server := false, m := init true false }⟩
+instance : Inhabited ChanSt := ⟨{ server := false, m := linit true false }⟩
 
 structure St where
   asserts : Bool := true
@@ -37,20 +40,25 @@ def errName (e : ErrorCode) : String :=
   | .NO_ERROR => "NO_ERROR" | .WRONG_PROTO => "WRONG_PROTO" | .NO_SERVICE => "NO_SERVICE" | .NO_METHOD => "NO_METHOD"
   | .INVALID_REQUEST => "INVALID_REQUEST" | .INVALID_RESPONSE => "INVALID_RESPONSE" | .TIMEOUT => "TIMEOUT"
 
+def depthOf (c : ChanSt) (k : Nat) : Nat := ((c.depth.find? (fun e => e.1 = k)).map (·.2)).getD 0
+
 inductive Line
   | cb (s : String) | reply (s : String) | sent (id : Nat) (s : String) | abort | skip
 
-def showEv (c : ChanSt) : Ev → Line
-  | .ran k _ v => .cb s!"done {tagOf c k} view={optNat v}"
-  | .free (.resp k) => .cb s!"free resp {tagOf c k}"
-  | .free (.done k) => .cb s!"free done {tagOf c k}"
-  | .dispatch _ p => .cb s!"dispatch p={p}"
-  | .uaf (.closure r) => .cb s!"uaf closure {r}"
-  | .uaf _ => .cb "uaf"
-  | .reply _ id p e => .reply s!"reply id={id} payload={optNat p} error={match e with | some e => errName e | none => "-"}"
-  | .sent id k => .sent id s!"sent id={id} tag={tagOf c k}"
-  | .abort => .abort
-  | _ => .skip
+/-- the closure of call `k` ran: its line, then the calls it issued from inside `Run()` (oldest first) -/
+def showEv (c : ChanSt) : Ev → List Line
+  | .ran k _ v =>
+    .cb s!"done {tagOf c k} view={optNat v}" ::
+      ((c.m.chained.filter (fun e => e.2 = k)).reverse.map (fun e => .cb s!"chained {tagOf c e.1} by {tagOf c k}"))
+  | .free (.resp k) => [.cb s!"free resp {tagOf c k}"]
+  | .free (.done k) => [.cb s!"free done {tagOf c k}"]
+  | .dispatch _ p => [.cb s!"dispatch p={p}"]
+  | .uaf (.closure r) => [.cb s!"uaf closure {r}"]
+  | .uaf _ => [.cb "uaf"]
+  | .reply _ id p e => [.reply s!"reply id={id} payload={optNat p} error={match e with | some e => errName e | none => "-"}"]
+  | .sent id k => [.sent id s!"sent id={id} tag={tagOf c k}"]
+  | .abort => [.abort]
+  | _ => []
 
 /-- insertion sort of the request lines by id (stable) -/
 def insertSent (x : Nat × String) : List (Nat × String) → List (Nat × String)
@@ -59,7 +67,7 @@ def insertSent (x : Nat × String) : List (Nat × String) → List (Nat × Strin
 
 /-- the lines of one channel for one block: events `evs` in chronological order -/
 def blockLines (i : Nat) (c : ChanSt) (evs : List Ev) : List String × Bool :=
-  let ls := evs.map (showEv c)
+  let ls := evs.flatMap (showEv c)
   let cbs := ls.filterMap (fun l => match l with | .cb s => some s | _ => none)
   let reps := ls.filterMap (fun l => match l with | .reply s => some s | _ => none)
   let sents := ls.filterMap (fun l => match l with | .sent id s => some (id, s) | _ => none)
@@ -68,7 +76,7 @@ def blockLines (i : Nat) (c : ChanSt) (evs : List Ev) : List String × Bool :=
   ((cbs ++ reps ++ sorted.map (·.2)).map (fun s => s!"c{i} {s}"), aborted)
 
 /-- events added to the log by a transition (chronological) -/
-def newEvents (old new : Chan) : List Ev := (new.log.take (new.log.length - old.log.length)).reverse
+def newEvents (old new : LChan) : List Ev := (new.ch.log.take (new.ch.log.length - old.ch.log.length)).reverse
 
 def parseSpec (s : String) (response : Bool) : Option (Option Body × Option Nat) :=
   match s.splitOn ":" with
@@ -79,12 +87,25 @@ def parseSpec (s : String) (response : Bool) : Option (Option Body × Option Nat
   | ["bare"] => if response then some (none, none) else none
   | _ => none
 
-/-- deliver every queued message of a channel: `recv` then `finish` each -/
+/-- one message: `recv`; if it completes a call made with a chain depth, the closure issues a call on its own channel (it
+gets the next tag and the rest of the depth); `finish` -/
+def deliverOne (c : ChanSt) (msg : Msg) : ChanSt :=
+  let s1 := lstep c.m (.base (.recv msg))
+  match s1.ch.pending with
+  | some (k, _) =>
+    let d := depthOf c k
+    if d > 0 then
+      let k' := s1.ch.nextCall
+      let s2 := chainOnce.foldl lstep s1
+      { c with m := lstep s2 (.base .finish), tags := (k', c.nextTag) :: c.tags, nextTag := c.nextTag + 1,
+               depth := (k', d - 1) :: c.depth }
+    else { c with m := lstep s1 (.base .finish) }
+  | none => { c with m := lstep s1 (.base .finish) }
+
+/-- deliver every queued message of a channel -/
 def deliver (c : ChanSt) : ChanSt :=
   if c.destroyed then { c with inbox := [] }
-  else
-    let m := c.inbox.foldl (fun m msg => step (step m (.recv msg)) .finish) c.m
-    { c with m := m, inbox := [] }
+  else { c.inbox.foldl deliverOne c with inbox := [] }
 
 def insertionSortStr (l : List String) : List String :=
   l.foldl (fun acc x =>
@@ -94,10 +115,11 @@ def insertionSortStr (l : List String) : List String :=
     ins acc) []
 
 /-- one loop iteration over all channels; `after` runs on channel `cidx` after its messages (the queued sends) -/
-def iterAll (st : St) (after : Option (Nat × (ChanSt → ChanSt))) : St × List String × Bool := Id.run do
+def iterAll (st : St) (after : Option (Nat × (ChanSt → ChanSt))) : St × List String × Bool × Bool := Id.run do
   let mut chans := st.chans
   let mut out : List String := []
   let mut aborted := false
+  let mut hung := false
   for i in [0:chans.size] do
     let c := chans[i]!
     let c1 := deliver c
@@ -107,8 +129,9 @@ def iterAll (st : St) (after : Option (Nat × (ChanSt → ChanSt))) : St × List
     let (ls, ab) := blockLines i c2 (newEvents c.m c2.m)
     out := out ++ ls
     aborted := aborted || ab
+    hung := hung || c2.m.deadlocked
     chans := chans.set! i c2
-  return ({ st with chans := chans }, out, aborted)
+  return ({ st with chans := chans }, out, aborted, hung)
 
 def withChan (st : St) (i : Nat) (f : ChanSt → Option (ChanSt × List String)) : St × List String :=
   if h : i < st.chans.size then
@@ -120,7 +143,44 @@ def withChan (st : St) (i : Nat) (f : ChanSt → Option (ChanSt × List String))
 
 def live (c : ChanSt) : Bool := !c.destroyed
 
-/-- returns the new state, the lines of the block, and whether the run ends here (abort) -/
+/-- the block of an operation that ran a loop iteration -/
+def iterResult (r : St × List String × Bool × Bool) : St × List String × Bool :=
+  let (st, ls, ab, hung) := r
+  (st, if ab then ["abort"] else if hung then ["hang"] else ls, ab || hung)
+
+def doCall (st : St) (c : String) (d : Nat) : St × List String × Bool :=
+  let (st', ls) := withChan st (c.toNat?.getD 1000000) (fun ch =>
+    if live ch then
+      let k := ch.m.ch.nextCall
+      let m := lstep (lstep (lstep ch.m (.base .callBegin)) (.base (.callInsert k))) (.base (.callSend k))
+      let ch' := { ch with m := m, tags := (k, ch.nextTag) :: ch.tags, nextTag := ch.nextTag + 1, depth := (k, d) :: ch.depth }
+      some (ch', (blockLines (c.toNat?.getD 0) ch' (newEvents ch.m m)).1)
+    else none)
+  (st', ls, false)
+
+def doCallMt (st : St) (c n : String) (d : Nat) : St × List String × Bool :=
+  match c.toNat?, n.toNat? with
+  | some ci, some n =>
+    if h : ci < st.chans.size then
+      let ch := st.chans[ci]
+      if live ch ∧ 1 ≤ n ∧ n ≤ 8 then
+        let order := ((st.order.find? (fun e => e.1 = ci)).map (·.2)).getD ((List.range n).map (· + ch.nextTag))
+        -- the fetches in id order, then every insert; the sends are queued behind the loop's I/O phase
+        let k0 := ch.m.ch.nextCall
+        let m1 := (List.range n).foldl (fun m _ => lstep m (.base .callBegin)) ch.m
+        let m2 := (List.range n).foldl (fun m j => lstep m (.base (.callInsert (k0 + j)))) m1
+        let tags := (order.zipIdx.map (fun (t, j) => (k0 + j, t))) ++ ch.tags
+        let depth := ((List.range n).map (fun j => (k0 + j, d))) ++ ch.depth
+        let ch' := { ch with m := m2, tags := tags, nextTag := ch.nextTag + n, depth := depth }
+        let st1 := { st with chans := st.chans.set! ci ch', order := [] }
+        -- `newEvents` of the iteration is computed against `ch'.m`; nothing was logged before it
+        iterResult (iterAll st1 (some (ci, fun c =>
+          { c with m := (List.range n).foldl (fun m j => lstep m (.base (.callSend (k0 + j)))) c.m })))
+      else (st, ["bad-op"], false)
+    else (st, ["bad-op"], false)
+  | _, _ => (st, ["bad-op"], false)
+
+/-- returns the new state, the lines of the block, and whether the run ends here (abort, hang) -/
 def doOp (st : St) (w : List String) : St × List String × Bool :=
   match w with
   | ["flavour", f] => ({ st with asserts := f != "ndebug" && f != "asan-ndebug" }, [], false)
@@ -132,39 +192,19 @@ def doOp (st : St) (w : List String) : St × List String × Bool :=
           if kind = "server" then
             (((Server.up { asserts := st.asserts } c).chan? c).getD (init st.asserts false))
           else init st.asserts false
-        ({ st with chans := st.chans.push { server := kind = "server", m := m } }, [], false)
+        ({ st with chans := st.chans.push { server := kind = "server", m := { ch := m } } }, [], false)
       else (st, ["bad-op"], false)
     | none => (st, ["bad-op"], false)
-  | ["call", c] =>
-    let (st', ls) := withChan st (c.toNat?.getD 1000000) (fun ch =>
-      if live ch then
-        let k := ch.m.nextCall
-        let m := step (step (step ch.m .callBegin) (.callInsert k)) (.callSend k)
-        let ch' := { ch with m := m, tags := (k, ch.nextTag) :: ch.tags, nextTag := ch.nextTag + 1 }
-        some (ch', (blockLines (c.toNat?.getD 0) ch' (newEvents ch.m m)).1)
-      else none)
-    (st', ls, false)
-  | ["callmt", c, n] =>
-    match c.toNat?, n.toNat? with
-    | some ci, some n =>
-      if h : ci < st.chans.size then
-        let ch := st.chans[ci]
-        if live ch ∧ 1 ≤ n ∧ n ≤ 8 then
-          let order := ((st.order.find? (fun e => e.1 = ci)).map (·.2)).getD ((List.range n).map (· + ch.nextTag))
-          -- the fetches in id order, then every insert; the sends are queued behind the loop's I/O phase
-          let k0 := ch.m.nextCall
-          let m1 := (List.range n).foldl (fun m _ => step m .callBegin) ch.m
-          let m2 := (List.range n).foldl (fun m j => step m (.callInsert (k0 + j))) m1
-          let tags := (order.zipIdx.map (fun (t, j) => (k0 + j, t))) ++ ch.tags
-          let ch' := { ch with m := m2, tags := tags, nextTag := ch.nextTag + n }
-          let st1 := { st with chans := st.chans.set! ci ch', order := [] }
-          -- `newEvents` of the iteration is computed against `ch'.m`; nothing was logged before it
-          let (st2, ls, ab) := iterAll st1 (some (ci, fun c =>
-            { c with m := (List.range n).foldl (fun m j => step m (.callSend (k0 + j))) c.m }))
-          (st2, if ab then ["abort"] else ls, ab)
-        else (st, ["bad-op"], false)
-      else (st, ["bad-op"], false)
-    | _, _ => (st, ["bad-op"], false)
+  | ["call", c] => doCall st c 0
+  | ["call", c, d] =>
+    match d.toNat? with
+    | some d => if d ≤ 16 then doCall st c d else (st, ["bad-op"], false)
+    | none => (st, ["bad-op"], false)
+  | ["callmt", c, n] => doCallMt st c n 0
+  | ["callmt", c, n, d] =>
+    match d.toNat? with
+    | some d => if d ≤ 16 then doCallMt st c n d else (st, ["bad-op"], false)
+    | none => (st, ["bad-op"], false)
   | ["peerResponse", c, id, spec] =>
     match id.toNat?, parseSpec spec true with
     | some id, some (pl, e) =>
@@ -199,8 +239,8 @@ def doOp (st : St) (w : List String) : St × List String × Bool :=
       | some p =>
         match ch.reqTable.find? (fun e => e.1 = p) with
         | some (_, r) =>
-          if ch.m.closures.any (fun e => e.1 = r) ∧ live ch then
-            let m := step ch.m (.fireDone r)
+          if ch.m.ch.closures.any (fun e => e.1 = r) ∧ live ch then
+            let m := lstep ch.m (.base (.fireDone r))
             let ch' := { ch with m := m }
             some (ch', (blockLines (c.toNat?.getD 0) ch' (newEvents ch.m m)).1)
           else none
@@ -210,13 +250,11 @@ def doOp (st : St) (w : List String) : St × List String × Bool :=
   | ["destroy", c] =>
     let (st', ls) := withChan st (c.toNat?.getD 1000000) (fun ch =>
       if live ch ∧ !ch.server then
-        let lines := (blockLines (c.toNat?.getD 0) ch (destroyEvents ch.m)).1
+        let lines := (blockLines (c.toNat?.getD 0) ch (destroyEvents ch.m.ch)).1
         some ({ ch with destroyed := true }, insertionSortStr lines)
       else none)
     (st', ls, false)
-  | ["iter"] =>
-    let (st', ls, ab) := iterAll st none
-    (st', if ab then ["abort"] else ls, ab)
+  | ["iter"] => iterResult (iterAll st none)
   | _ => (st, ["bad-op"], false)
 
 def main (lines : Array String) : IO Unit := do
